@@ -150,6 +150,9 @@ func (c *Ctx) respell(li int, s string, expectOK bool) {
 
 func propC10(c *Ctx) {
 	r := c.rep
+	c.focusEntropies(func(li int, e []byte) {
+		c.respell(li, strings.ReplaceAll(c.specSentence(int64(langVals[li]), e), "　", " "), true)
+	})
 	r.Rule = "chk ops on pairs with equal NFKD form: valid sentences containing list words (quick: a seeded slice of the 10x2048 words; thorough: all of them) at every word count, re-spelled NFC, NFD, NFKC, NFKD and full-width (x/text transforms), with U+0020 and with U+3000 between words; invalid sentences and arbitrary Unicode strings paired with their other normal forms; expected: identical verdict and error for every spelling, nil for valid sentences; each compared with the specification's verdict over Lean NFKD (pinned Unicode 15 tables). Non-trivial = distinct ops not rejected by the count gate."
 	step := 97
 	if !c.quick {
@@ -226,6 +229,9 @@ func propC11(c *Ctx) {
 			}
 		}
 	}
+	c.focusEntropies(func(li int, e []byte) {
+		group("focus-word", strings.ReplaceAll(c.specSentence(int64(langVals[li]), e), "　", " "), "pw")
+	})
 	for li := range langVals {
 		l := int64(langVals[li])
 		for v := (li*17 + int(r.Seed)) % step; v < 2048; v += step {
